@@ -830,12 +830,17 @@ def concrete_tasks(T):
                     out.append(ConcreteSeparable("is_separable.concrete_product_mixtures_are_declared_separable", cfg,
                                                  lambda rho, dim=dim: is_separable(rho, dim)))
     for dA, dB in [(2, 2), (2, 3), (3, 3), (2, 4)]:
-        for K in [1, 3, dA * dB + 1]:
+        for K in [1, 2, 3, dA * dB + 1]:
             for level, ppt in [(1, True), (2, True), (2, False)]:
-                cfg = {"dims": [dA, dB], "terms": K, "entries": "complex", "level": level, "ppt": ppt,
-                       "family": "sum_k (1/K) P(a_k) (x) P(b_k), a_k, b_k on the moment curve (see family_vector)"}
-                out.append(ConcreteSeparable("has_symmetric_extension.concrete_product_mixtures_are_accepted", cfg,
-                                             lambda rho, d=[dA, dB], level=level, ppt=ppt: has_symmetric_extension(rho, level, d, ppt)))
+                for cplx in (False, True):
+                    if (dA, dB, level, ppt, K) == (2, 2, 2, False, 1):
+                        continue   # a pure product state satisfies the two-qubit closed form with equality: exactly on the boundary
+                    if (dA, dB) != (2, 2) and not (cplx or T):
+                        continue
+                    cfg = {"dims": [dA, dB], "terms": K, "entries": "complex" if cplx else "real", "level": level, "ppt": ppt,
+                           "family": "sum_k (1/K) P(a_k) (x) P(b_k), a_k, b_k on the moment curve (see family_vector)"}
+                    out.append(ConcreteSeparable("has_symmetric_extension.concrete_product_mixtures_are_accepted", cfg,
+                                                 lambda rho, d=[dA, dB], level=level, ppt=ppt: has_symmetric_extension(rho, level, d, ppt)))
     return out
 
 
